@@ -161,16 +161,21 @@ func (r *DeviceLocal) RemoveRemoteDevice(ski string) {
 
 	// remove all subscriptions for this device
 	subscriptionMgr := r.SubscriptionManager()
-	subscriptionMgr.RemoveSubscriptionsForDevice(r.remoteDevices[ski])
+	subscriptionMgr.RemoveSubscriptionsForDevice(remoteDevice)
 
 	// remove all bindings for this device
 	bindingMgr := r.BindingManager()
-	bindingMgr.RemoveBindingsForDevice(r.remoteDevices[ski])
+	bindingMgr.RemoveBindingsForDevice(remoteDevice)
 
+	// the remote devices and the entities are also used by other goroutines
+	r.mux.Lock()
 	delete(r.remoteDevices, ski)
+	remainingDevices := len(r.remoteDevices)
+	entities := slices.Clone(r.entities)
+	r.mux.Unlock()
 
 	// only unsubscribe if we don't have any remote devices left
-	if len(r.remoteDevices) == 0 {
+	if remainingDevices == 0 {
 		_ = Events.unsubscribe(api.EventHandlerLevelCore, r)
 	}
 
@@ -178,7 +183,7 @@ func (r *DeviceLocal) RemoveRemoteDevice(ski string) {
 		Device: remoteDevice.Address(),
 	}
 	// remove all data caches for this device
-	for _, entity := range r.entities {
+	for _, entity := range entities {
 		for _, feature := range entity.Features() {
 			feature.CleanWriteApprovalCaches(ski)
 			feature.CleanRemoteDeviceCaches(remoteDeviceAddress)
@@ -257,7 +262,8 @@ func (r *DeviceLocal) Entities() []api.EntityLocalInterface {
 	r.mux.Lock()
 	defer r.mux.Unlock()
 
-	return r.entities
+	// return a copy, the caller uses it without the lock
+	return slices.Clone(r.entities)
 }
 
 func (r *DeviceLocal) Entity(id []model.AddressEntityType) api.EntityLocalInterface {
@@ -297,7 +303,11 @@ func (r *DeviceLocal) FeatureByAddress(address *model.FeatureAddressType) api.Fe
 }
 
 func (r *DeviceLocal) CleanRemoteEntityCaches(remoteAddress *model.EntityAddressType) {
-	for _, entity := range r.entities {
+	r.mux.Lock()
+	entities := slices.Clone(r.entities)
+	r.mux.Unlock()
+
+	for _, entity := range entities {
 		for _, feature := range entity.Features() {
 			feature.CleanRemoteEntityCaches(remoteAddress)
 		}
